@@ -9,6 +9,7 @@ import (
 
 	"github.com/ipfs/go-cid"
 	"github.com/ipld/go-ipld-prime"
+	"github.com/ipld/go-ipld-prime/codec/dagcbor"
 	"github.com/ipld/go-ipld-prime/datamodel"
 	cidlink "github.com/ipld/go-ipld-prime/linking/cid"
 	"github.com/ipld/go-ipld-prime/node/basicnode"
@@ -410,6 +411,30 @@ func chunkOps(ch chV) valueOps {
 	}
 }
 
+// replays carry the value as its DAG-CBOR block: JSON text cannot hold strings that are not UTF-8
+func adReplay(a adV) replay {
+	var buf bytes.Buffer
+	n, err := a.toGo(0).ToNode()
+	if err == nil {
+		err = dagcbor.Encode(n, &buf)
+	}
+	if err != nil {
+		return replay{Kind: "ad", Ad: &a}
+	}
+	return replay{Kind: "ad", Hex: hx(buf.Bytes())}
+}
+func chunkReplay(ch chV) replay {
+	var buf bytes.Buffer
+	n, err := ch.toGo(0).ToNode()
+	if err == nil {
+		err = dagcbor.Encode(n, &buf)
+	}
+	if err != nil {
+		return replay{Kind: "chunk", Chunk: &ch}
+	}
+	return replay{Kind: "chunk", Hex: hx(buf.Bytes())}
+}
+
 func allUTF8(a adV) bool {
 	ok := strings.ToValidUTF8(a.Provider, "\x00\x01") == a.Provider
 	chk := func(l []string) {
@@ -447,7 +472,7 @@ func doAdE(c *vlib.Ctx, a adV, verbose bool, emit bool) {
 	if a.Prev != nil || a.Ext != nil || len(a.Addrs) >= 2 {
 		c.Nontrivial("ad:" + a.coq())
 	}
-	rp := replay{Kind: "ad", Ad: &a}
+	rp := adReplay(a)
 	for _, codec := range []string{"cbor", "json"} {
 		clause, detail, block := valueOracle(codec, adOps(a))
 		if verbose {
@@ -461,11 +486,11 @@ func doAdE(c *vlib.Ctx, a adV, verbose bool, emit bool) {
 			if codec == "json" && !allUTF8(a) && strings.HasSuffix(clause, "-differs") {
 				// one signature for the class: DAG-JSON replaces invalid UTF-8 in strings
 				min := adV{Provider: "\xff", Entries: a.Entries}
-				c.Fail("value:json:string-not-utf8", "DAG-JSON round trip of an advertisement whose Provider / address strings are not valid UTF-8 changes them (each bad byte becomes U+FFFD): "+detail, replay{Kind: "ad", Ad: &min})
+				c.Fail("value:json:string-not-utf8", "DAG-JSON round trip of an advertisement whose Provider / address strings are not valid UTF-8 changes them (each bad byte becomes U+FFFD): "+detail, adReplay(min))
 				continue
 			}
 			min := shrinkAd(a, codec, clause)
-			c.Fail(fmt.Sprintf("value:%s:ad:%s:%s", codec, clause, adShape(min)), fmt.Sprintf("advertisement %+v with %s: %s: %s", min, codec, clause, detail), replay{Kind: "ad", Ad: &min})
+			c.Fail(fmt.Sprintf("value:%s:ad:%s:%s", codec, clause, adShape(min)), fmt.Sprintf("advertisement %+v with %s: %s: %s", min, codec, clause, detail), adReplay(min))
 		}
 	}
 }
@@ -513,7 +538,7 @@ func doChunkE(c *vlib.Ctx, ch chV, verbose bool, emit bool) {
 	if ch.Next != nil || len(ch.Entries) >= 2 {
 		c.Nontrivial("chunk:" + ch.coq())
 	}
-	rp := replay{Kind: "chunk", Chunk: &ch}
+	rp := chunkReplay(ch)
 	for _, codec := range []string{"cbor", "json"} {
 		clause, detail, block := valueOracle(codec, chunkOps(ch))
 		if verbose {
